@@ -48,11 +48,15 @@ Buffer_init(BufferObject *self, PyObject *args, PyObject *kwargs)
     }
 
     /* allocate at least one byte so that an empty buffer still gets a valid pointer */
-    self->base = malloc(capacity ? capacity : 1);
-    if (self->base == NULL) {
+    uint8_t *base = malloc(capacity ? capacity : 1);
+    if (base == NULL) {
         PyErr_NoMemory();
         return -1;
     }
+    /* __init__ may be called again on a live object: release the previous storage,
+     * and only once the new one exists */
+    free(self->base);
+    self->base = base;
     self->end = self->base + capacity;
     if (data != NULL) {
         memcpy(self->base, data, data_len);
